@@ -392,6 +392,128 @@ def member_family(tier):
     return out
 
 
+# ---- union family: {oneOf, anyOf} x ordered pairs of operands --------------------------------------------
+UNION_OPERANDS = {
+    "null": {"type": "null"}, "bool": BOOL, "int": INT, "num": {"type": "number"}, "str": STR,
+    "str_max2": {"type": "string", "maxLength": 2}, "enum_ab": {"type": "string", "enum": ["a", "b"]},
+    "vec_int": {"type": "array", "items": INT}, "vec_str": {"type": "array", "items": STR},
+    "arr13_str": {"type": "array", "items": STR, "minItems": 1, "maxItems": 3},
+    "arr13_int": {"type": "array", "items": INT, "minItems": 1, "maxItems": 3},
+    "arr2_int": {"type": "array", "items": INT, "minItems": 2, "maxItems": 2},
+    "tuple_is": {"type": "array", "items": [INT, STR], "minItems": 2, "maxItems": 2},
+    "obj_p": obj({"p": STR}, ["p"], additionalProperties=False), "obj_q_open": obj({"q": INT}, ["q"]),
+    "map_int": {"type": "object", "additionalProperties": INT},
+    "ref_obj": {"$ref": "#/definitions/XObj"}, "ref_str": {"$ref": "#/definitions/XLabel"},
+}
+UNION_QUICK = ["null", "int", "str", "enum_ab", "vec_int", "arr13_str", "arr13_int", "tuple_is", "obj_p", "ref_str"]
+_UNION_DEFS = {"XObj": obj({"s": STR, "n": INT}, ["s"]), "XLabel": {"type": "string"}}
+_JTYPE = {"null": "null", "bool": "boolean", "int": "number", "num": "number", "str": "string", "str_max2": "string", "enum_ab": "string",
+          "vec_int": "array", "vec_str": "array", "arr13_str": "array", "arr13_int": "array", "arr2_int": "array", "tuple_is": "array",
+          "obj_p": "object", "obj_q_open": "object", "map_int": "object", "ref_obj": "object", "ref_str": "string"}
+
+
+_MINI = [None, True, 0, 3, 1.5, "", "a", "abc", "0b9f1c1e-2d3a-4b5c-8d7e-6f5a4b3c2d1e", [], [1], [1, 2], [1, 2, 3, 4], ["a"], [1, "a"], ["a", "b"],
+         {}, {"p": "x"}, {"q": 1}, {"s": "x"}, {"s": "x", "n": 1}, {"s": "x", "q": 1}, {"k": 1}]
+
+
+def _overlap(a, b):
+    """do two operand schemas share an instance of the mini universe (python jsonschema, Draft 7)?"""
+    import jsonschema
+    va, vb = (jsonschema.Draft7Validator(dict(copy.deepcopy(x), definitions=_UNION_DEFS)) for x in (a, b))
+    return any(va.is_valid(v) and vb.is_valid(v) for v in _MINI)
+
+
+def union_family(tier):
+    out = []
+    ops = UNION_QUICK if tier == "quick" else list(UNION_OPERANDS)
+    for comb in ("oneOf", "anyOf"):
+        for a in ops:
+            for b in ops:
+                if a == b:
+                    continue
+                disjoint = _JTYPE[a] != _JTYPE[b]
+                overlap = _overlap(UNION_OPERANDS[a], UNION_OPERANDS[b])
+                enf_ops = all(x not in ("map_int", "obj_q_open", "ref_obj", "arr13_str", "arr13_int") for x in (a, b))
+                sh = L("%s[%s,%s]" % (comb, a, b), {comb: [copy.deepcopy(UNION_OPERANDS[a]), copy.deepcopy(UNION_OPERANDS[b])]},
+                       ff=True, enf=enf_ops and (comb == "anyOf" or not overlap), fam=True,
+                       defs={k: v for k, v in _UNION_DEFS.items() if ("ref_obj" in (a, b) and k == "XObj") or ("ref_str" in (a, b) and k == "XLabel")})
+                sh["tg"] = {"un_comb": comb, "un_a": a, "un_b": b, "un_types": "+".join(sorted({_JTYPE[a], _JTYPE[b]})), "un_same_type": not disjoint,
+                            "un_overlap": overlap}
+                sh["sup"] = all(x not in ("arr13_str", "arr13_int") for x in (a, b))   # schemars never emits a bounded, non-fixed array
+                sh["only_ctx"] = ["def"] if (tier == "quick" and comb == "oneOf") else (["member_opt"] if tier == "quick" else ["def", "member_opt", "vec_item"])
+                out.append(sh)
+    return out
+
+
+# ---- refinement family: allOf [base | $ref base, one further constraint] ----------------------------------
+REFINE_BASES = {
+    "str": (STR, [{"maxLength": 4}, {"minLength": 3}, {"pattern": "^[a-z]+$"}, {"enum": ["a", "bb"]}, {"format": "uuid"}, {"not": {"enum": ["a"]}}]),
+    "str_max4": ({"type": "string", "maxLength": 4}, [{"maxLength": 2}, {"minLength": 3}, {"pattern": "^[a-z]+$"}, {"maxLength": 6}]),
+    "enum_abc": ({"type": "string", "enum": ["a", "bb", "ccc"]}, [{"enum": ["a"]}, {"enum": ["bb", "ccc"]}, {"maxLength": 2}, {"not": {"enum": ["a"]}}]),
+    "int": (INT, [{"minimum": 0}, {"maximum": 255}, {"minimum": 1, "maximum": 10}, {"multipleOf": 2}, {"enum": [1, 2]}]),
+    "u8": ({"type": "integer", "format": "uint8", "minimum": 0}, [{"minimum": 1}, {"maximum": 10}]),
+    "vec_int": ({"type": "array", "items": INT}, [{"minItems": 1}, {"maxItems": 2}, {"minItems": 2, "maxItems": 2}, {"uniqueItems": True},
+                                                  {"items": {"minimum": 0}}]),
+    "obj": (obj({"s": STR, "n": INT}, ["s"]), [{"required": ["n"]}, {"properties": {"s": {"maxLength": 2}}}, {"properties": {"extra": BOOL}},
+                                                {"additionalProperties": False}, {"properties": {"n": {"minimum": 0}}, "required": ["n"]}]),
+}
+
+
+def refine_family(tier):
+    out = []
+    for bname, (base, cons) in REFINE_BASES.items():
+        for ci, con in enumerate(cons):
+            for via in ("inline", "ref"):
+                for typed in ((False, True) if tier != "quick" else (False,)):
+                    c = copy.deepcopy(con)
+                    if typed and isinstance(base.get("type"), str):
+                        c = dict({"type": base["type"]}, **c)
+                    first = {"$ref": "#/definitions/XBase"} if via == "ref" else copy.deepcopy(base)
+                    ckeys = "+".join(sorted(con))
+                    enf = ((bname in ("str", "str_max4", "enum_abc") and "format" not in con) or (bname == "int" and "enum" in con)
+                           or (bname == "vec_int" and ckeys == "maxItems+minItems")
+                           or (bname == "obj" and ckeys in ("required", "additionalProperties")))
+                    sh = L("refine[%s:%s%d:%s%s]" % (bname, ckeys, ci, via, ":typed" if typed else ""), {"allOf": [first, c]},
+                           ff=typed and "uniqueItems" not in con and "multipleOf" not in con and "not" not in con, enf=enf, fam=True,
+                           strish=bname in ("str", "str_max4", "enum_abc"), defs={"XBase": copy.deepcopy(base)} if via == "ref" else None)
+                    sh["tg"] = {"rf_base": bname, "rf_con": ckeys, "rf_via": via, "rf_typed": typed}
+                    sh["sup"] = False   # allOf used to add constraints is neither schemars output nor documented: rejection is allowed (C01)
+                    out.append(sh)
+    return out
+
+
+# ---- array family: item type x bounds, and tuple forms --------------------------------------------------------
+def array_family(tier):
+    out = []
+    items = {"int": INT, "str_max2": {"type": "string", "maxLength": 2}, "struct": obj({"x": INT}, ["x"]), "nullable": {"type": ["integer", "null"]}}
+    bounds = {"none": {}, "min1": {"minItems": 1}, "max2": {"maxItems": 2}, "1_3": {"minItems": 1, "maxItems": 3}, "2_2": {"minItems": 2, "maxItems": 2},
+              "0_0": {"minItems": 0, "maxItems": 0}, "1_1": {"minItems": 1, "maxItems": 1}, "unique": {"uniqueItems": True},
+              "unique_2_2": {"uniqueItems": True, "minItems": 2, "maxItems": 2}, "3_2": {"minItems": 3, "maxItems": 2}}
+    for iname, it in items.items():
+        if tier == "quick" and iname in ("struct", "nullable"):
+            continue
+        for bname, b in bounds.items():
+            sh = L("arr[%s:%s]" % (iname, bname), dict({"type": "array", "items": copy.deepcopy(it)}, **b), ff="unique" not in bname,
+                   enf=bname in ("none", "2_2", "1_1"), fam=True)   # only a FIXED length is a constraint typify represents (C05)
+            sh["tg"] = {"ar_items": iname, "ar_bounds": bname}
+            sh["sup"] = bname in ("none", "2_2", "1_1", "unique")   # Vec<T>, [T; N], HashSet<T> as schemars writes them
+            out.append(sh)
+    # tuple forms: items list of length 2 x additionalItems x bounds relative to the list length
+    addl = {"absent": None, "false": False, "true": True, "int": INT}
+    tb = {"none": {}, "2_2": {"minItems": 2, "maxItems": 2}, "1_2": {"minItems": 1, "maxItems": 2}, "2_3": {"minItems": 2, "maxItems": 3},
+          "3_3": {"minItems": 3, "maxItems": 3}, "min2": {"minItems": 2}, "max2": {"maxItems": 2}, "1_1": {"minItems": 1, "maxItems": 1}}
+    for aname, av in addl.items():
+        for bname, b in tb.items():
+            s = dict({"type": "array", "items": [copy.deepcopy(INT), copy.deepcopy(STR)]}, **b)
+            if av is not None:
+                s["additionalItems"] = copy.deepcopy(av)
+            sh = L("tup[%s:%s]" % (aname, bname), s, ff=True, enf=bname in ("2_2", "3_3", "1_1"), fam=True)
+            sh["tg"] = {"tu_addl": aname, "tu_bounds": bname}
+            sh["sup"] = (aname, bname) == ("absent", "2_2")   # the tuple form schemars writes
+            out.append(sh)
+    return out
+
+
 def shapes_depth2(tier):
     """(L ∪ K(default leaves)) — list of shape dicts."""
     out = []
@@ -407,6 +529,9 @@ def shapes_depth2(tier):
     out.extend(SOLO_COMPOSITES)
     out.extend(tagged_family(tier))
     out.extend(member_family(tier))
+    out.extend(union_family(tier))
+    out.extend(refine_family(tier))
+    out.extend(array_family(tier))
     return out
 
 
@@ -427,7 +552,7 @@ def place(shape, ctx):
     target = None if ctx["id"] == "root" else "T"
     return {"id": "%s@%s" % (shape["id"], ctx["id"]), "doc": doc, "target": target, "ff": shape["ff"] and ctx["ff"],
             "enf": shape["enf"] and ctx["enf"], "strish": shape.get("strish", False) and ctx["id"] in ("def", "ref_alias", "allof1"),
-            "shape": shape["id"], "ctx": ctx["id"], "tg": shape.get("tg")}
+            "shape": shape["id"], "ctx": ctx["id"], "tg": shape.get("tg"), "sup": shape.get("sup", True)}
 
 
 def space_depth2(tier, contexts=None):
@@ -436,7 +561,7 @@ def space_depth2(tier, contexts=None):
     fam_ctx = ["def", "member_opt"] if tier == "quick" else ["def", "member_opt", "vec_item", "ext_payload", "root"]
     for sh in shapes_depth2(tier):
         for cid in ctxs:
-            if sh.get("fam") and cid not in fam_ctx:
+            if sh.get("fam") and cid not in (sh.get("only_ctx") or fam_ctx):
                 continue   # the systematic families are large: they are placed in a covering subset of the contexts
             p = place(sh, CONTEXT[cid])
             if p is not None:
